@@ -2,15 +2,23 @@
   * the escape table of prqlc-parser/src/lexer/mod.rs parse_escape_sequence (simple `'x' => 'y'` arms)
     and the fixed shape of the remaining arms (\\u{...}, \\xHH, escaped quote, unknown escape);
   * the (prefix, base, max digits) rows of parse_number_with_base and the order of literal()'s choice;
-  * the shape of sql/gen_expr.rs translate_literal for strings / booleans / integers / floats.
+  * the shape of sql/gen_expr.rs translate_literal for strings / booleans / integers / floats / dates;
+  * sql/dialect.rs: for every Dialect variant, through handler(), the value of string_literal_backslash_escape()
+    (trait default + per-handler overrides; boolean literals only; the flag must be consulted exactly once, in
+    translate_literal) -> writer_backslash_doubling;
+  * the reading side of each dialect (is a backslash an escape inside '...'; do \\% \\_ keep it) as the pinned sqlparser's
+    dialect object of the same name states it (harness c08_dialects) -> reader_backslash_escape.
 Fails closed: anything unexpected -> stub file, so Props/C08.v stops compiling."""
 import re
 
-from ..common import gen_write
-from ..rustscan import ExtractError, read, mask, block_after, match_arms
+from ..common import gen_write, harness
+from ..rustscan import ExtractError, read, mask, block_after, match_arms, match_brace, enum_variants
 
 LEXER = "prqlc/prqlc-parser/src/lexer/mod.rs"
 GENEXPR = "prqlc/prqlc/src/sql/gen_expr.rs"
+DIALECT = "prqlc/prqlc/src/sql/dialect.rs"
+SQLMOD = "prqlc/prqlc/src/sql/mod.rs"
+BS_FLAG = "string_literal_backslash_escape"
 
 
 def rust_char(lit):
@@ -35,6 +43,95 @@ def rust_char(lit):
 
 def norm(t):
     return re.sub(r"\s+", " ", re.sub(r"//[^\n]*", "", t)).strip()
+
+
+def bool_method(src, m, s, e, name, where):
+    """value of `fn name(&self) -> bool { true|false }` directly inside src[s:e]; None when the block has no such method"""
+    hits = [x for x in re.finditer(r"\bfn\s+%s\s*\(" % re.escape(name), m[s:e])]
+    if not hits:
+        return None
+    if len(hits) > 1:
+        raise ExtractError("%s: method %s defined twice" % (where, name))
+    at = s + hits[0].start()
+    po = m.index("(", at)
+    pc = match_brace(m, po)
+    bo = m.find("{", pc, e)
+    if bo < 0:
+        raise ExtractError("%s: method %s has no body" % (where, name))
+    sig = re.sub(r"\s+", " ", m[po:bo]).strip()
+    if sig != "(&self) -> bool":
+        raise ExtractError("%s: method %s has signature %r" % (where, name, sig))
+    bc = match_brace(m, bo)
+    body = re.sub(r"\s+", " ", m[bo + 1:bc]).strip()       # masked: comments blanked
+    if body not in ("true", "false"):
+        raise ExtractError("%s: body of %s is not a boolean literal: %r" % (where, name, body[:60]))
+    return body == "true"
+
+
+def extract_backslash_flags():
+    """[(dialect name, does translate_literal double backslashes for it)] in the order of the Dialect enum:
+    the Dialect -> handler map composed with the handlers' string_literal_backslash_escape (trait default + overrides)"""
+    src = read(DIALECT)
+    m = mask(src)
+    if not re.search(r"#\[strum\(serialize_all\s*=\s*\"lowercase\"\)\]\s*pub enum Dialect\b", src):
+        raise ExtractError("Dialect names are no longer serialize_all=lowercase")
+    variants = [v for v, _ in enum_variants(DIALECT, "Dialect")]
+    s, e = block_after(src, m, r"fn\s+handler\s*\(&self\)[^{]*\{")
+    s2, e2 = block_after(src[s:e], m[s:e], r"match\s+self\s*\{")
+    handler = {}
+    for pat, body in match_arms(src[s:e], m[s:e], s2, e2):
+        mb = re.fullmatch(r"Box::new\(([A-Za-z]+)\)", body.strip())
+        if not mb:
+            raise ExtractError("handler(): arm body not Box::new(X): %r" % body[:60])
+        for p in pat.split("|"):
+            mp = re.fullmatch(r"Dialect::([A-Za-z]+)", p.strip())
+            if not mp or mp.group(1) in handler:
+                raise ExtractError("handler(): pattern %r" % p)
+            handler[mp.group(1)] = mb.group(1)
+    if sorted(handler) != sorted(variants):
+        raise ExtractError("handler() does not cover exactly the Dialect variants")
+    s, e = block_after(src, m, r"trait\s+DialectHandler\b[^{]*\{")
+    default = bool_method(src, m, s, e, BS_FLAG, "trait DialectHandler")
+    if default is None:
+        raise ExtractError("trait DialectHandler has no %s" % BS_FLAG)
+    # every mention of the flag in the SQL backend: the trait default, the overrides, and the one use in translate_literal
+    over = {}
+    for mm in re.finditer(r"impl\s+DialectHandler\s+for\s+([A-Za-z]+)\s*\{", m):
+        bo = mm.end() - 1
+        bc = match_brace(m, bo)
+        if mm.group(1) in over:
+            raise ExtractError("two impl DialectHandler blocks for %s" % mm.group(1))
+        over[mm.group(1)] = bool_method(src, m, bo + 1, bc, BS_FLAG, "impl DialectHandler for " + mm.group(1))
+    for h in set(handler.values()):
+        if h not in over:
+            raise ExtractError("no impl DialectHandler for %s" % h)
+    n_defs = len(re.findall(r"\bfn\s+%s\b" % BS_FLAG, m))
+    if n_defs != 1 + sum(1 for v in over.values() if v is not None):
+        raise ExtractError("%s is defined somewhere else than the trait and its impl blocks" % BS_FLAG)
+    if len(re.findall(r"\b%s\b" % BS_FLAG, m)) != n_defs:
+        raise ExtractError("%s is used inside dialect.rs (forwarding between handlers is not modelled)" % BS_FLAG)
+    sm = read(SQLMOD)
+    if not re.search(r"fn new\(dialect: Dialect, anchor: AnchorContext\) -> Self \{\s*Context \{\s*dialect: dialect\.handler\(\),", sm):
+        raise ExtractError("sql::Context::new no longer takes its dialect handler from Dialect::handler()")
+    return [(v.lower(), default if over[handler[v]] is None else over[handler[v]]) for v in variants]
+
+
+def reader_flags(names):
+    """[(dialect name, backslash is an escape inside '...', \\% and \\_ keep their backslash)]: how the database side reads
+    string literals, as stated by the pinned sqlparser's dialect objects (the compiled dependency answers for itself:
+    harness c08_dialects = supports_string_literal_backslash_escape / ignores_wildcard_escapes).  Dependency data,
+    not /repo source: it is the stand-in for the engines' documentation."""
+    try:
+        ans = harness("c08_dialects", [{}])[0]
+    except Exception as ex:                                   # harness not buildable: fail closed
+        raise ExtractError("harness c08_dialects failed: %s" % str(ex)[-200:])
+    out = []
+    for n in names:
+        f = ans.get(n) if isinstance(ans, dict) else None
+        if not isinstance(f, dict) or not isinstance(f.get("bs"), bool) or not isinstance(f.get("wild"), bool):
+            raise ExtractError("sqlparser has no reading-side flags for dialect %s" % n)
+        out.append((n, f["bs"], f["wild"]))
+    return out
 
 
 def extract():
@@ -151,8 +248,10 @@ def extract():
     arms = dict((norm(p), norm(b)) for p, b in match_arms(g[s:e], mg[s:e], s2, e2))
     want = {
         "Literal::Null": "sql_ast::Expr::Value(Value::Null.into())",
-        # since fix e3af91e: every quote doubled before sqlparser's Display (Model/Escape.v emit_literal_string)
-        "Literal::String(s) | Literal::RawString(s)": "{ sql_ast::Expr::Value(Value::SingleQuotedString(s.replace('\\'', \"''\")).into()) }",
+        # since fix e3af91e: every quote doubled before sqlparser's Display; since fix d2c1667: on a dialect whose handler
+        # answers string_literal_backslash_escape() every backslash is doubled first (Model/Escape.v emit_literal_string)
+        "Literal::String(s) | Literal::RawString(s)": ("{ let s = if ctx.dialect.string_literal_backslash_escape() { s.replace('\\\\', \"\\\\\\\\\") } else { s }; "
+                                                       "let s = s.replace('\\'', \"''\"); sql_ast::Expr::Value(Value::SingleQuotedString(s).into()) }"),
         "Literal::Boolean(b)": "sql_ast::Expr::Value(Value::Boolean(b).into())",
         "Literal::Float(f)": 'sql_ast::Expr::Value(Value::Number(format!("{f:?}"), false).into())',
         "Literal::Integer(i)": 'sql_ast::Expr::Value(Value::Number(format!("{i}"), false).into())',
@@ -182,6 +281,14 @@ def extract():
     s, e = block_after(g, mg, r"fn\s+translate_datetime_literal_with_typed_string\b[^{]*\{")
     if "value: sqlparser::ast::Value::SingleQuotedString(value).into()" not in norm(g[s:e]):
         raise ExtractError("typed-string datetime literal changed")
+
+    # which dialects get their backslashes doubled, and how each dialect's reading side treats a backslash
+    info["writer_bs"] = extract_backslash_flags()
+    uses = [f for f in ("gen_expr.rs", "gen_query.rs", "gen_projection.rs", "operators.rs", "mod.rs")
+            if re.search(r"\b%s\b" % BS_FLAG, mask(read("prqlc/prqlc/src/sql/" + f)))]
+    if uses != ["gen_expr.rs"] or len(re.findall(r"\b%s\b" % BS_FLAG, mg)) != 1:
+        raise ExtractError("%s is consulted somewhere else than once in translate_literal: %s" % (BS_FLAG, uses))
+    info["reader"] = reader_flags([n for n, _ in info["writer_bs"]])
 
     # the documented escape table (the specification side)
     doc = read("web/book/src/reference/syntax/strings.md")
@@ -239,6 +346,11 @@ def generate():
     v += "Definition based_rows : list (list N * N * nat) :=\n  [ " + ";\n    ".join("(%s, %d, %d%%nat)" % (codes(p), b, n) for p, b, n in info["based"]) + " ].\n\n"
     v += "(* sqlparser version pinned by /repo/Cargo.lock: (major, minor, patch) *)\n"
     ver = [int(x) for x in re.findall(r"\d+", info["sqlparser"])[:3]]
-    v += "Definition sqlparser_version : N * N * N := (%d, %d, %d).\n" % tuple(ver)
+    v += "Definition sqlparser_version : N * N * N := (%d, %d, %d).\n\n" % tuple(ver)
+    b = lambda x: "true" if x else "false"
+    v += "(* sql/dialect.rs: Dialect -> handler() -> string_literal_backslash_escape(): translate_literal doubles the backslashes *)\n"
+    v += "Definition writer_backslash_doubling : list (list N * bool) :=\n  [ " + ";\n    ".join("(%s, %s) (* %s *)" % (codes(n), b(w), n) for n, w in info["writer_bs"]) + " ].\n\n"
+    v += "(* the pinned sqlparser's dialect objects: (name, (backslash escapes inside '...', \\% \\_ keep the backslash)) *)\n"
+    v += "Definition reader_backslash_escape : list (list N * (bool * bool)) :=\n  [ " + ";\n    ".join("(%s, (%s, %s)) (* %s *)" % (codes(n), b(x), b(y), n) for n, x, y in info["reader"]) + " ].\n"
     gen_write("GenLiteral", v)
     return info
